@@ -414,6 +414,11 @@ class Interp:
         if np.issubdtype(dst, np.integer) and np.issubdtype(src, np.floating):
             # truncation towards zero: an interpreted-by-name atom (congruent, evaluated numerically on replay)
             return _ew1(lambda p: P.Poly.const(int(p.const_value())) if p.is_const() else P.fn("trunc", p), x)
+        if np.issubdtype(dst, np.inexact) and np.issubdtype(src, np.inexact) and dst.itemsize < src.itemsize:
+            # an explicit narrowing of a floating value (float64 -> float32 ...) is a rounding, not the identity: a value
+            # stored in a narrower type is no longer the value that was computed
+            nm = f"round_to_{dst.name}"
+            return _ew1(lambda p: p if p.is_const() else P.fn(nm, p), x)
         return x
 
     def p_reduce_precision(self, eqn, v):
